@@ -454,9 +454,9 @@ func verif_C20_stop_vs_accept() {
 	// Serve either ran and was ended by the stop call (nil, its listener
 	// closed), or found the server closed already and said so
 	verifAssert(stopErr == nil && (err == nil || err == ErrServerClosed), "C20.stop-vs-accept-both-return")
-	if err == nil {
-		verifAssert(l.closes >= 1, "C20.stop-vs-accept-listener-closed")
-	}
+	// either way the listener handed to Serve does not stay open behind a
+	// closed server (ListenAndServe creates it and has no other owner)
+	verifAssert(l.closes >= 1, "C20.stop-vs-accept-listener-closed")
 	verifAssert(verifGoroutinesAlive() == 0, "C20.stop-vs-accept-no-goroutine-left")
 	verifReach("C20.stop-vs-accept-end")
 }
